@@ -1057,7 +1057,7 @@ harnesses! {
     #[cfg_attr(kani, kani::stub(resume_unwind, ru_stub))]
     fn c01_slab_cap3 [unwind 7] { slab_shape::<3, 2>(true) }
 
-    // @verif id=C02 tier=quick timeout=900 mem=10 expect=pass
+    // @verif id=C02 tier=quick timeout=900 mem=10 expect=pass witness=any covers=1
     // @bounds Slab capacity 2 under MustNotDropContents: same shape; dropped only when empty (must not panic)
     #[cfg_attr(kani, kani::stub(catch_unwind, cu_stub))]
     #[cfg_attr(kani, kani::stub(resume_unwind, ru_stub))]
